@@ -497,7 +497,9 @@ fn mode_depmgr(rep: &mut Report) {
 }
 
 fn main() {
-    std::panic::set_hook(Box::new(|_| {}));
+    std::panic::set_hook(Box::new(|_| {
+        system::PANICS.fetch_add(1, std::sync::atomic::Ordering::SeqCst);
+    }));
     let args: Vec<String> = std::env::args().collect();
     let mode = args.get(1).cloned().unwrap_or_default();
     let mut rep = Report { mode: mode.clone(), bound: String::new(), checked: 0, failures: vec![] };
